@@ -63,7 +63,22 @@ def main(tier):
                     for w in W['workloads']:
                         if not w['ports']:
                             w['ports'].append({'port': run.rng.choice(gen.PORTS), 'proto': 'TCP', 'name': ''})
-                    W['others'] = c08.dedupe_named([c10.manifest(o) for o in c10.gen_ingress_objs(run.rng, W)])
+                    objs = c10.gen_ingress_objs(run.rng, W)
+                    # ... and every workload is certainly targeted once (one Service each, one Ingress per namespace), so that names
+                    # containing one another meet among the {ingress-controller} lines
+                    for wi, w in enumerate(W['workloads']):
+                        if not w['labels']:
+                            w['labels'] = {'app': 'l%d' % wi}
+                        tcp = [p_ for p_ in w['ports'] if p_['proto'] == 'TCP']
+                        if not tcp:
+                            w['ports'].append({'port': 8000 + wi, 'proto': 'TCP', 'name': ''})
+                            tcp = [w['ports'][-1]]
+                        objs.append({'kind': 'Service', 'ns': w['ns'], 'name': 'tsvc%d' % wi, 'selector': dict(w['labels']),
+                                     'ports': [{'name': '', 'port': 80, 'targetPort': tcp[0]['port']}]})
+                    for ns_ in sorted({w['ns'] for w in W['workloads']}):
+                        rules = [[{'svc': 'tsvc%d' % wi, 'pname': '', 'pnum': 80}] for wi, w in enumerate(W['workloads']) if w['ns'] == ns_]
+                        objs.append({'kind': 'Ingress', 'ns': ns_, 'name': 'ting', 'default': None, 'rules': rules})
+                    W['others'] = c08.dedupe_named([c10.manifest(o) for o in objs])
                 dl = gen.docs(W)
                 d = h.dir_for('c%d' % cid)
                 gen.write_dir(d, [m for m, _ in dl])
